@@ -430,6 +430,7 @@ func walsimMain(c *Ctx) {
 		}
 		c.Sample(map[string]any{"run_seed": seed, "case": wc})
 		tape := simrt.NewTape(seed)
+		c.Begin(seed, wc)
 		vs := walCheck(c, wc, tape, true)
 		c.RunHash(nil, mustJSON(wc), len(vs), c.Res.Evaluations, len(c.distinct))
 		for _, v := range vs {
